@@ -69,11 +69,13 @@ def c07(proj, rep, tier):
     n = typestate.h1(proj, rep, ['numqi.sim.clifford.CliffordCircuit', 'numqi.gate._pauli.PauliOperator'],
                      require_memo=['numqi.sim.clifford.CliffordCircuit'])
     rep.floor('H1 mutators of a memoised source (CliffordCircuit recorders)', n, 1)
+    n = kdefects.md1(proj, rep, ['numqi.sim.clifford', 'numqi.gate._pauli', 'numqi.random._spf2'] if tier == 'quick' else sorted(proj.modules))
+    rep.floor('MD1 functions with default arguments (Clifford / Pauli modules)', n, 10)
     n, nrec = clifford.h2(proj, rep)
     rep.floor('H2 recorder factories', nrec, 8)
     rep.floor('H2 table entries', n, 30)
     n = clifford.h3(proj, rep)
-    rep.floor('H3 composition-order + scatter obligations', n, 3)
+    rep.floor('H3 composition-order + scatter obligations', n, 4)
     n = clifford.h4(proj, rep)
     rep.floor('H4 recorder factories', n, 2)
     n = twins.tw(proj, rep, ['numqi.sim.clifford', 'numqi.gate._pauli', 'numqi.group.spf2'])
@@ -192,6 +194,14 @@ def c12(proj, rep, tier):
     backend.b1(proj, rep, ['numqi.channel._internal', 'numqi.utils'], expect_match=B1_CHANNEL)
     n = numeric.f1(proj, rep, ['numqi.utils'])
     rep.floor('F1 log sites of the entropy / relative-entropy formulas', n, 10)
+    n = kdefects.al2(proj, rep, ['numqi.channel._internal'])
+    rep.floor('AL2 probe calls of user channel callables', n, 2)
+    n = hermitian.hm1(proj, rep, ['numqi.utils', 'numqi.channel._internal'])
+    rep.floor('HM1 self-adjoint compositions / spectral reconstructions in utils + channel', n, 5)
+    n = ownership.o3(proj, rep, ['numqi.channel._internal'])
+    rep.floor('O3 public functions of numqi.channel', n, 12)
+    nf, ns = shapes.sh3(proj, rep, ['numqi.channel._internal', 'numqi.utils'])
+    rep.floor('SH3 reshape sites whose axis roles are tracked (channel, utils)', ns, 2)
     rep.assume('contractivity (data processing), fidelity range / symmetry and entropy bounds are theorems about values: not decided; '
                'choi_op_to_bloch_map (double Gell-Mann transform with computed reshapes) is not typed')
 
@@ -267,6 +277,10 @@ def c04(proj, rep, tier):
     rep.floor('R1 leg-relabelling contractions (op_grad legs)', n, 7)
     n = adjoint.a6(proj, rep, ['numqi._torch_op'])
     rep.floor('A6 nonzero-index-table uses in the sqrtm backward', n, 1)
+    n = adjoint.a7(proj, rep)
+    rep.floor('A7 gradient buffers cleared before backward', n, 1)
+    n = adjoint.a8(proj, rep, ['numqi.utils'])
+    rep.floor('A8 custom-backward logm dispatch sites', n, 2)
     backend.b1(proj, rep, ['numqi.gate._internal'], expect_match=B1_GATE)
     n = twins.tw(proj, rep, ['numqi.sim.state', 'numqi.sim._torch_utils', 'numqi._torch_op', 'numqi.qec._internal'])
     rep.floor('TW twin blocks in the backward helpers (grad / conj halves of the op_grad contraction)', n, 2)
